@@ -347,7 +347,10 @@ for _name in dir(ast):
 
 TEMPLATES = ['{X}', 'contains({X})', '{X} and True', 'True or {X}', '[{X} for r in orders]', '[r for r in {X}]', '[r for r in orders if {X}]', 'amount + {X}', '({X}).lower()',
              '(v := {X})', '{X} if True else 0', '0 if {X} else 1', 'len({X})', 'description[{X}]', 'next({X}, 1)', 'sum({X})', 'trim({X})', 'exists({X})', '({X}).item',
-             'not {X}', '-({X})', '{X} == {X}', 'orders[0][{X}]', 'regex_replace(description, {X}, {X})', 'any({X} for r in orders)', 'min({X}, 2)', 'extract({X})']
+             'not {X}', '-({X})', '{X} == {X}', 'orders[0][{X}]', 'regex_replace(description, {X}, {X})', 'any({X} for r in orders)', 'min({X}, 2)', 'extract({X})',
+             'next((r for r in orders if False), {X})', 'next((r for r in []), {X})', 'sum((r.amount for r in orders if False), {X})', 'sum([], {X})', 'min({X}, {X})', 'max(1, {X})',
+             'round(1.5, {X})', 'substring({X}, 0, 1)', 'split({X}, "a", 0)', '{X} in {X}', '[{X}][0]', 'fuzzy({X}, {X}, {X})', 'strip_prefix({X}, {X})', 'lowercase({X})',
+             '{X} if False else {X}', '(v := {X}) and v', 'next(({X} for r in orders), 1)', '[{X} for r in orders][0]']
 
 
 def node_strings():
@@ -371,7 +374,8 @@ PAYLOADS = [
     '"{0.__class__}".format(description)', '"{0.__class__.__mro__}".format(amount)', '"{0.real}".format(amount)', 'description.format_map(orders[0])',
     '"%s" % [contains]', 'description.join', 'description.encode()', 'description.translate(orders[0])', 'description.__getattribute__("upper")',
     'description.__reduce__()', 'description.__reduce_ex__(2)', 'description.__init_subclass__', 'description.__dir__()', 'description.__sizeof__()',
-    'date.__class__', 'date.today()', 'date.weekday', 'date.weekday()', 'date.replace(year=1)', 'date.isoformat', 'date.strftime("%Y")', 'date.__reduce__()',
+    'next((r for r in orders if False), (r for r in orders))', 'sum((x.amount for x in orders if False), (y for y in orders))', 'next((r for r in []), (r.item for r in orders))',
+    'trim(next((r for r in []), (r.item for r in orders)))', 'min((r for r in orders), (r for r in orders))', 'date.__class__', 'date.today()', 'date.weekday', 'date.weekday()', 'date.replace(year=1)', 'date.isoformat', 'date.strftime("%Y")', 'date.__reduce__()',
     'txn.date.weekday', 'txn.date.year', 'orders[0].date.weekday', 'orders[0].date.isoformat()', 'date.min', 'date.resolution', 'date.fromisoformat',
     'amount.real', 'amount.is_integer()', 'amount.hex()', 'amount.as_integer_ratio()', 'amount.__add__(1)', 'amount.conjugate', 'month.bit_length()',
     'month.to_bytes(2, "big")', 'month.from_bytes', 'month.numerator', '(r for r in orders).gi_frame', '(r for r in orders).gi_code', '(r for r in orders).send',
